@@ -627,6 +627,10 @@ func (e *evalCtx) aclExpr(t []string) bool {
 	}
 	fn, _ := fnArgs(splitTop(t[0])[0])
 	val, has := e.sample(t[0])
+	if fn == "path_beg" {
+		// the ACL keyword is the path fetch with the beg method
+		val, has = e.sample("path")
+	}
 	method := ""
 	icase := false
 	var patterns []string
